@@ -82,7 +82,7 @@ class INVTRAN(Aggregate):
     memo = String(255)
 
 
-class INVBUY(Aggregate, Origcurrency):
+class INVBUY(Origcurrency, Aggregate):
     """OFX section 13.9.2.4.3"""
 
     invtran = SubAggregate(INVTRAN, required=True)
@@ -107,7 +107,7 @@ class INVBUY(Aggregate, Origcurrency):
     prioryearcontrib = Bool()
 
 
-class INVSELL(Aggregate, Origcurrency):
+class INVSELL(Origcurrency, Aggregate):
     """OFX section 13.9.2.4.3"""
 
     invtran = SubAggregate(INVTRAN, required=True)
@@ -182,7 +182,7 @@ class CLOSUREOPT(Aggregate):
     gain = Decimal()
 
 
-class INCOME(Aggregate, Origcurrency):
+class INCOME(Origcurrency, Aggregate):
     """OFX section 13.9.2.4.4"""
 
     invtran = SubAggregate(INVTRAN, required=True)
@@ -198,7 +198,7 @@ class INCOME(Aggregate, Origcurrency):
     inv401ksource = OneOf(*INV401KSOURCES)
 
 
-class INVEXPENSE(Aggregate, Origcurrency):
+class INVEXPENSE(Origcurrency, Aggregate):
     """OFX section 13.9.2.4.4"""
 
     invtran = SubAggregate(INVTRAN, required=True)
@@ -230,7 +230,7 @@ class JRNLSEC(Aggregate):
     units = Decimal(required=True)
 
 
-class MARGININTEREST(Aggregate, Origcurrency):
+class MARGININTEREST(Origcurrency, Aggregate):
     """OFX section 13.9.2.4.4"""
 
     invtran = SubAggregate(INVTRAN, required=True)
@@ -240,7 +240,7 @@ class MARGININTEREST(Aggregate, Origcurrency):
     origcurrency = SubAggregate(ORIGCURRENCY)
 
 
-class REINVEST(Aggregate, Origcurrency):
+class REINVEST(Origcurrency, Aggregate):
     """OFX section 13.9.2.4.4"""
 
     invtran = SubAggregate(INVTRAN, required=True)
@@ -260,7 +260,7 @@ class REINVEST(Aggregate, Origcurrency):
     inv401ksource = OneOf(*INV401KSOURCES)
 
 
-class RETOFCAP(Aggregate, Origcurrency):
+class RETOFCAP(Origcurrency, Aggregate):
     """OFX section 13.9.2.4.4"""
 
     invtran = SubAggregate(INVTRAN, required=True)
@@ -314,7 +314,7 @@ class SELLSTOCK(Aggregate):
     selltype = OneOf(*SELLTYPES, required=True)
 
 
-class SPLIT(Aggregate, Origcurrency):
+class SPLIT(Origcurrency, Aggregate):
     """OFX section 13.9.2.4.4"""
 
     invtran = SubAggregate(INVTRAN, required=True)
